@@ -264,6 +264,11 @@ impl<'a, 'ast> Visit<'ast> for BodyV<'a> {
                 self.call_of.insert(self.src.span(c.span()).0, cs);
             }
         }
+        let self_recv = matches!(&*e.receiver, syn::Expr::Path(pth) if pth.path.is_ident("self"));
+        if !self_recv {
+            // a method call on another receiver: only the name is recorded (the splicer checks it against functions the contracts do not know)
+            self.calls.push(format!("{{\"form\":\"method\",\"name\":{},\"span\":{},\"args\":[],\"in_closure\":{}}}", js(&e.method.to_string()), sp(cs), self.in_closure > 0));
+        }
         if let syn::Expr::Path(pth) = &*e.receiver {
             if pth.path.is_ident("self") && e.turbofish.is_none() {
                 let args: Vec<String> = e.args.iter().map(|a| sp(self.src.span(a.span()))).collect();
